@@ -158,9 +158,17 @@ def script_fn(st, B, s):
         d = os.path.join(cw, "del%d" % st["id"])
         s.raw("mkdirp %s %s 1" % (cw.encode().hex(), ("del%d" % st["id"]).encode().hex()))
         s.raw("rmdir " + d.encode().hex())
+    # a priming call BEFORE the forks / the uid change below: anything the library caches from this call (pid, tid, uid ...)
+    # must not show up in what the descendant logs afterwards
+    if st["sub"] % 2 == 0:
+        fmt0 = SEP.join(b"%{" + x.encode() + b"}" for x in G1 + G2)
+        s.conf(b"[snoopy]\nmessage_format = \"" + fmt0 + b"\"\noutput = devnull\n")
+        s.call(base + 9, "execve", b"/bin/c12-prime", [b"prime"], [b"E=1"], -1, 2)
+        st["_primed"] = True
     # ancestors
-    if st["chain"]:
-        s.raw("chain " + ",".join((b"anc%d-%d" % (st["id"], j)).hex() for j in range(st["chain"])) + "," + b"leafproc".hex())
+    nchain = st["chain"] if st["chain"] else (1 if st["sub"] % 2 == 0 else 0)
+    if nchain:
+        s.raw("chain " + ",".join((b"anc%d-%d" % (st["id"], j)).hex() for j in range(nchain)) + "," + b"leafproc".hex())
     # environment
     env = env_for(st)
     if env is None:
@@ -370,7 +378,9 @@ def check_fn(st, evs, B):
         if len(vals) != len(grp):
             B.F.violation("C12:field-count", "record has %d fields, format has %d: %s" % (len(vals), len(grp), short(rec, 200)), wit)
             continue
-        bracket = (O["now_s"], en["now_s"])      # whole seconds as integers (a double cannot hold the microseconds exactly)
+        # whole seconds as integers (a double cannot hold the microseconds exactly); time(2) reads the coarse clock, which may
+        # still show the previous second for up to one tick after clock_gettime(CLOCK_REALTIME) rolled over: lower bound - 1
+        bracket = (O["now_s"] - 1, en["now_s"])
         for name, got in zip(grp, vals):
             exp = expected(name, O, st, bracket, B.version)
             if exp is None:
@@ -412,7 +422,7 @@ def load_records(B):
     if lines and lines[-1] == b"":
         lines.pop()
     # the driver ran calls sequentially: line k belongs to the k-th REAL event that logged something
-    seq = [e["id"] for e in B.res.events if e["ev"] == "REAL"]
+    seq = [e["id"] for e in B.res.events if e["ev"] == "REAL" and e["id"] % 10 != 9]      # (id%10 == 9: priming calls, logged to devnull)
     if len(seq) != len(lines):
         B.file_records = {}
         B.count("record_count_mismatch")
